@@ -178,4 +178,7 @@ def obligations(ctx, cfg):
         Wrapper(ctx, 'Topic', 'delete', _no_args, hint='topics/topic.rs'),
         CreateSubscription(ctx),
     ]
+    from props.actor_steps import ReceiveDropped
+    for v in ('PullMessages', 'AcknowledgeMessages', 'ModifyDeadline', 'GetInfo', 'GetStats'):
+        obs.append(ReceiveDropped(ctx, v))
     return obs
